@@ -63,5 +63,5 @@ func (a AllOf) MarshalJSON() ([]byte, error) {
 
 	b.WriteByte(']')
 
-	return b.Bytes(), nil
+	return internal.CopyBytes(b.Bytes()), nil
 }
